@@ -30,6 +30,18 @@ CHECKS = {
  "C12": dict(cat="fault_enumeration", tech="deterministic simulation: the C02 fault world with recording decoder/validator (invocation history) and paired deliveries",
    text="Same fault enumeration and exploration as C02, with a payload type whose decoder records every invocation (and fails on a marker) and a counting validator: for every delivered token the ideal table calls unauthentic, decoder and validator invocation counts must stay 0 and the error must be a format/crypto error (ClaimsError only for the v1/v2 assertion rule, PayloadError only from footer decoding at parse time); paired tokens differing only in whether their payload decodes must fail with the same error kind under the same corruption.",
    note="the sub-claim that the unverified footer is reachable only through unverified_footer() is an API-shape statement and is not decided by execution", ref="5 C12"),
+ "C04": dict(cat="exploration", tech="deterministic simulation: Byzantine senders/writers, every node step under catch_unwind; invariant 'no step panics'",
+   text="Byzantine nodes put degenerate artifacts on the wire and into the store: for every FromStr type of every backend, decoded contents of every length 0..700 (random, all-zero, all-ones), malformed shapes, the degenerate key catalogue (P-384 identity/off-curve/out-of-range, Ed25519 non-points and inconsistent secrets, RSA of wrong sizes, truncated DER), PBKW blobs with every cost field at 0/1/budget maximum. Every accepted key is then displayed, identified, cloned and used; every token unsealed, every blob unwrapped. Invariant: no step panics or aborts the simulator. Input space is sampled, not covered: no coverage guidance.",
+   note="memory corruption is only observable as a crash in this tier (ASan/Miri tiers in DESIGN.md); PBKW costs beyond 64 MiB / 3 passes / 100000 iterations are not executed", ref="5 C04"),
+ "C08": dict(cat="exploration", tech="deterministic simulation: crash/restart (only PASERK text survives), clone hand-over, Byzantine key distribution; verdicts from independent modular arithmetic",
+   text="Keys generated under seeded and edge RNG values (or RSA fixtures, PEM and DER) live on all backends of a version through restarts and clone replacement: bytes identical after text/raw round trips, decode.encode idempotent, public_key() equal to an independent derivation and to the serialised public half, signatures by clones verify under re-parsed public keys, pre-restart tokens accepted post-restart. Byzantine key bytes (all lengths 0..128, boundary scalars, identity/off-curve/x>=p/bad-tag points, Ed25519 non-points, inconsistent secret halves, wrong-size RSA) must be rejected; the verdict comes from plain big-integer arithmetic, not from a crypto library.",
+   note="not demanded: rejection of valid uncompressed/hybrid/compact P-384 encodings, small-order Ed25519 points, RSA DER with wrong redundant fields (those are judged under C09)", ref="5 C08"),
+ "C09": dict(cat="fault_enumeration", tech="deterministic simulation: re-encoding channel faults on every text form (complete tail-block character enumeration), independent base64url codec as oracle",
+   text="For every (backend, artifact kind) valid instances with every base64 tail length pass through re-encoding channels: every tail-block position x 148 characters (all ASCII + multi-byte samples), random earlier replacements, '=' padding, standard alphabet, every trailing-bit pattern, whitespace/control insertion, extra segments, header case, trailing dots, truncated lengths. Oracle: accepted => re-serialises to the delivered string (tokens: up to one trailing '.' with empty footer); own serialisations always accepted; serde form = quoted Display string, non-strings rejected; footers of every length 0..300 encode/decode through an independent codec.",
+   note="value-level leniencies of key parsers (PEM inside k1 texts, non-compressed SEC1 in k3.public) violate canonicality as stated and are listed as known findings; base64-level non-canonicality has its own class and is never masked by them", ref="5 C09"),
+ "C13": dict(cat="exploration", tech="deterministic simulation: key directory keyed by id across sibling backends, restarts and clones; independent digest as oracle",
+   text="Ids of all key kinds are computed on every backend of a version, again after restart and on clones, for v1 keys held as PEM and DER; compared with an independent SHA-384/BLAKE2b-33 digest over header || canonical PASERK text; ids of different kinds never coincide even for identical key bytes; id texts round-trip; Eq/Ord/Hash/BTreeSet/HashSet agree with the 33 bytes; other decoded lengths are rejected.",
+   note="pure function of the key: the simulator contributes agreement across parties and incarnations; inputs are sampled", ref="5 C13"),
 }
 
 NA = {
